@@ -49,6 +49,11 @@ RULE = ("(ra) RaggedArray / ndarray inputs with 1..300 rows (row counts around t
         "(lac) load_as_concatenated on enspara/test/data trajectories (xtc, h5, pdb), per-file stride / atom selection / "
         "frame keyword, lengths hint or sounding, processes 1, 2 and 4, compared with the individually loaded files; the "
         "model is run under a random completion order of the workers. "
+        "On every ra / npy / compared lac case the definitions regenerated from the current sources (Gen/StoreGen.v: node "
+        "names, announced lengths, fill loops, single-key read, offsets + worker windows under the case's completion order, "
+        "ordered length collection, rank stripe at world size 1) are evaluated next to the hand model and compared with the "
+        "node names, lengths and data the real code produced. (long / lachist) oracle-only: rows of 65537..131075 items "
+        "with strides 3/5/7/10/1000; reloading after one file was rewritten with another frame count. "
         "non-trivial := (ra/raw) >= 2 rows of different lengths or a stride > 1 or a proper key subset; "
         "(lac/npy) >= 2 files of different strided length")
 TRUSTED = ["translator/tr_store.py (expressions, slices and loop bodies of ra.save / ra.load / util.load / mpi.io -> "
